@@ -11,6 +11,8 @@
 (*          of 2 and 3 threads x 2 instances) on the footprint of the class      *)
 (*   ref    results of the sequential reference run, per (class, thread)         *)
 (*   obs    results of the same instances executed on T concurrent threads       *)
+(*   crash  the concurrent run ended abnormally (the sequential run of the same  *)
+(*          instances by the same binary had completed)                          *)
 (*   race   a ThreadSanitizer report from such a run                             *)
 (*   sched  a TLC-generated schedule replayed on the real object                 *)
 (*                                                                               *)
@@ -83,6 +85,11 @@ CheckRace(e) ==
   IF e.lib THEN Fail("C18.norace", "ThreadSanitizer: " \o e.kind \o ": " \o e.a \o " <-> " \o e.b \o " ; " \o e.where, "no report")
   ELSE Fail("TOOL.harness_race", "ThreadSanitizer report without a library frame: " \o e.a \o " <-> " \o e.b, "")
 
+(* ----- crash ----- *)
+CheckCrash(e) ==
+  Fail("C18.same", ToString(e.T) \o " threads running const operations on shared const inputs ended abnormally (rc " \o ToString(e.rc) \o ": " \o e.msg
+       \o "); the sequential run of the same " \o ToString(e.N) \o " instances per thread completed", "results of the sequential run")
+
 (* ----- sched ----- *)
 CheckSched(e) ==
   IF Len(e.ref) # Len(e.obs) THEN Fail("TOOL.sched", "lengths", "")
@@ -98,6 +105,7 @@ Check(s, e) ==
     [] e.op = "ref"   -> Ok
     [] e.op = "obs"   -> CheckObs(s, e)
     [] e.op = "race"  -> CheckRace(e)
+    [] e.op = "crash" -> CheckCrash(e)
     [] e.op = "sched" -> CheckSched(e)
     [] OTHER -> <<[clause |-> "TOOL.unknown_op", err |-> e.op, tol |-> ""]>>
 
@@ -105,7 +113,7 @@ Cell(e) ==
   CASE e.op = "inv"   -> "inv|part" \o ToString(e.part)
     [] e.op = "fp"    -> "fp|" \o e.cls
     [] e.op = "model" -> "model|" \o e.cls \o "|" \o e.norace
-    [] e.op \in {"ref", "obs"} -> e.op \o "|" \o e.cls \o "|" \o e.san \o "|T" \o ToString(e.T)
+    [] e.op \in {"ref", "obs", "crash"} -> e.op \o "|" \o e.cls \o "|" \o e.san \o "|T" \o ToString(e.T)
     [] e.op = "race"  -> "race|" \o e.cls
     [] e.op = "sched" -> "sched|" \o e.cls
     [] OTHER -> "?"
